@@ -936,7 +936,36 @@ func (st *inlineState) expand(call *ast.CallExpr, cfd *FuncDecl, depth int, tail
 		}
 		targets = nt
 	} else if targets == nil || len(targets) != nres {
-		// results go to fresh temporaries (or to the variables being defined, declared first)
+		// results go to fresh temporaries — except that a straight-line callee returning one of
+		// its own locals simply leaves that local as the result
+		direct := map[int]*types.Var{}
+		if endsWithSingleReturn(body) && len(body.List) > 0 {
+			if r, ok := body.List[len(body.List)-1].(*ast.ReturnStmt); ok && len(r.Results) == nres {
+				for i := range r.Results {
+					if rid, ok := ast.Unparen(r.Results[i]).(*ast.Ident); ok {
+						if cv, ok := st.info.Uses[rid].(*types.Var); ok && !cv.IsField() {
+							declared := false
+							ast.Inspect(body, func(m ast.Node) bool {
+								if id, ok := m.(*ast.Ident); ok && st.info.Defs[id] == types.Object(cv) {
+									declared = true
+								}
+								return true
+							})
+							if declared {
+								direct[i] = cv
+							}
+						}
+					}
+				}
+			}
+		}
+		if len(direct) == nres && nres > 0 {
+			for i := 0; i < nres; i++ {
+				resExprs = append(resExprs, st.useIdent(direct[i], call.Pos()))
+			}
+			list := body.List[: len(body.List)-1 : len(body.List)-1]
+			return append(append(append([]ast.Stmt{}, decl...), pre...), list...), resExprs, true
+		}
 		targets = nil
 		for i := 0; i < nres; i++ {
 			v := st.newVar("r", sig.Results().At(i).Type(), call.Pos())
@@ -1261,8 +1290,29 @@ func (st *inlineState) stmt(s ast.Stmt, depth int) []ast.Stmt {
 	case *ast.SendStmt:
 		pre := st.hoist([]*ast.Expr{&x.Value}, depth)
 		return append(pre, s)
+	case *ast.GoStmt:
+		st.literalBody(x.Call, depth)
+	case *ast.DeferStmt:
+		st.literalBody(x.Call, depth)
 	}
 	return []ast.Stmt{s}
+}
+
+// literalBody processes the body of a function literal that is called in place
+// (go func(){…}(), defer func(){…}()): its statements are part of the enclosing
+// function's text, with their own result arity for tail calls.
+func (st *inlineState) literalBody(call *ast.CallExpr, depth int) {
+	lit, ok := ast.Unparen(call.Fun).(*ast.FuncLit)
+	if !ok {
+		return
+	}
+	save := st.curNRes
+	st.curNRes = 0
+	if lit.Type.Results != nil {
+		st.curNRes = lit.Type.Results.NumFields()
+	}
+	st.block(lit.Body, depth)
+	st.curNRes = save
 }
 
 func (st *inlineState) elseOf(x *ast.IfStmt, depth int) {
@@ -1465,6 +1515,14 @@ func (st *inlineState) normalise(body *ast.BlockStmt) {
 			if r := st.splitParallel(x); r != nil {
 				st.changed = true
 				return r
+			}
+		case *ast.GoStmt:
+			if lit, ok := ast.Unparen(x.Call.Fun).(*ast.FuncLit); ok {
+				blk(lit.Body)
+			}
+		case *ast.DeferStmt:
+			if lit, ok := ast.Unparen(x.Call.Fun).(*ast.FuncLit); ok {
+				blk(lit.Body)
 			}
 		}
 		return []ast.Stmt{s}
